@@ -55,6 +55,30 @@ PROPS = {
         "quick": {"scale": 1, "shards": 16, "timeout_s": 600},
         "thorough": {"scale": 12, "shards": 16, "timeout_s": 3600},
     },
+    # temporary entry added by the C17 builder (lead: replace/adjust as needed)
+    "C17": {
+        "pkg": "c17",
+        "level": "exploration",
+        "rule": ("big-number arithmetic, differential against math/big: per case ONE drawn operation of numct.Nat / numct.Int / "
+                 "numct.Modulus (every exported arithmetic, comparison, bit/byte conversion method), num.{Nat,NatPlus,Int,Rat,Uint/ZMod}, "
+                 "modular.{SimpleModulus,OddPrimeFactors,OddPrimeSquareFactors} (CRT exponentiation mod pq and p^2q^2, ExpToN, Fermat "
+                 "quotients), crt.{Params,ParamsExtended,ParamsMulti}.Recombine/Decompose, znstar RSA and Paillier groups (known/unknown "
+                 "order), nt.Jacobi, nt prime generators, cardinal. Operands: drawn bit lengths 0-4096 (2048 for quadratic-cost ops) biased "
+                 "to 0, 1, 63-65, 127-129, 255-257, limb boundaries and 2^k+-1, shapes 2^k / 2^k-1 / 2^k+1 / sparse / random; announced "
+                 "capacity smaller (value truncated), equal or larger than the true length; explicit capacity arguments -1 / exact / larger / "
+                 "smaller; negatives; aliasing out=x, out=y, x=y, all, dirty (previously longer) outputs; moduli 1, 2, 2^k, even, odd prime, "
+                 "p^2, pq, odd composite with operands below / equal / above the modulus; primes = next-prime of drawn numbers (math/big) and "
+                 "openssl fixtures of 512-1536 bits (ordinary, Blum, safe). Oracle: math/big (Add, Sub, Mul, QuoRem/DivMod by the documented "
+                 "rounding, Mod, Exp, ModInverse with ok <=> gcd = 1, Sqrt, GCD, Jacobi, Cmp, BitLen, Bytes round trips, Lsh/Rsh) plus "
+                 "inputs-unchanged; modular square roots: returned => squares back, modulo an odd prime returned <=> Euler criterion = 1; CRT: "
+                 "Recombine(a mod p_i) = a mod prod p_i; register-machine sequences over three moduli against a model (outputs reused as inputs); "
+                 "generated primes: ProbablyPrime(32), exact length, form, p != q, product length. Zero ring inversion verdicts, negative right "
+                 "shifts, Int values under truncating capacities and LshCap beyond capacity are recorded, not asserted. Non-trivial: operands "
+                 "non-zero (modulus > 1); distinct = distinct (package, op, size class, capacity class, aliasing class, sign class, note)."),
+        "assumptions": COMMON_ASSUME,
+        "quick": {"scale": 1, "shards": 8, "timeout_s": 600},
+        "thorough": {"scale": 10, "shards": 16, "timeout_s": 3600},
+    },
     # temporary entry added by the C18 builder (lead: replace/adjust as needed)
     "C18": {
         "pkg": "c18",
@@ -104,7 +128,8 @@ PROPS = {
                  "extraction, resp. a non-empty message or non-default DST; distinct = distinct (edit class, length, "
                  "compared count) resp. (curve, message class, DST class, message hash)."),
         "assumptions": COMMON_ASSUME,
-        "quick": {"scale": 1, "shards": 8, "timeout_s": 600},
+        "env": {"GOMAXPROCS": "2", "GOGC": "400"},
+        "quick": {"scale": 1, "shards": 16, "timeout_s": 600},
         "thorough": {"scale": 12, "shards": 16, "timeout_s": 2400},
     },
     # temporary entry added by the C20 builder (lead: replace/adjust as needed)
